@@ -151,6 +151,18 @@ def parseLoop (c : Context) (allowUnreg allowFlagValue : Bool) (posName : Option
 def parseArgv (c : Context) (allowUnreg allowFlagValue : Bool) (posName : Option (List Nat)) (toks : List (List Nat)) : Except Err PState :=
   parseLoop c allowUnreg allowFlagValue posName (toks.length + 1) { toks := toks }
 
+/-- `parseCommandLine(int& argc, char** argv, …)` (src/program_options.cpp:867): `cells` is the argv vector (`none` = null pointer), `argc0` the
+    caller's count.  The count is first advanced to the terminating null pointer, the tokens argv[1..argc) are parsed, then argc/argv are
+    rewritten to the program name followed by the remaining tokens and a null pointer; later cells keep their old content.
+    Result: (parse state, new argc, new cells). -/
+def cmdLine (c : Context) (allowUnreg allowFlagValue : Bool) (posName : Option (List Nat)) (argc0 : Nat) (cells : List (Option (List Nat))) :
+    Except Err (PState × Nat × List (Option (List Nat))) :=
+  let argc := argc0 + ((cells.drop argc0).takeWhile Option.isSome).length
+  let toks := ((cells.take argc).drop 1).filterMap id
+  match parseArgv c allowUnreg allowFlagValue posName toks with
+  | .error e => .error e
+  | .ok p => .ok (p, 1 + p.remaining.length, cells.take 1 ++ p.remaining.map some ++ [none] ++ cells.drop (p.remaining.length + 2))
+
 /-! ### command strings -/
 
 def isCSpace (c : Nat) : Bool := c == 32 || (9 ≤ c && c ≤ 13)
